@@ -180,6 +180,14 @@ func (s *syncSource) RequestBlock(ctx context.Context, hash bitcoin.Hash32, hand
 		})
 		return node, nil
 	}
+	slowFor := 150 * time.Second
+	if strings.HasPrefix(behaviour, "slow") && behaviour != "slow" {
+		// "slow<seconds>": the same with another delay
+		var secs int
+		fmt.Sscanf(behaviour, "slow%d", &secs)
+		slowFor = time.Duration(secs) * time.Second
+		behaviour = "slow"
+	}
 	stallFor := 12 * time.Second
 	if strings.HasPrefix(behaviour, "stall") && behaviour != "stall" {
 		// "stall<seconds>": the same with another delay
@@ -203,7 +211,7 @@ func (s *syncSource) RequestBlock(ctx context.Context, hash bitcoin.Hash32, hand
 		vsched.GoNamed("slow-node-"+label, func() {
 			ch := make(chan *wire.MsgTx, 2)
 			vsched.GoNamed("slow-handler-"+label, func() { handler(bg, b.header, 1, ch) })
-			vsched.Sleep(150 * time.Second)
+			vsched.Sleep(slowFor)
 			node.mu.Lock()
 			closed := node.closed
 			node.mu.Unlock()
@@ -392,7 +400,16 @@ func syncScenario(c syncConfig) func() func() []string {
 			nm.Wait(bg) // all synchronisation rounds are over
 			for _, list := range c.script {
 				for _, b := range list {
-					if strings.HasPrefix(b, "stall") || strings.HasPrefix(b, "late") || b == "slow" {
+					if strings.HasPrefix(b, "late") {
+						// whatever a late source still does has to happen before the manager is stopped
+						var secs int
+						fmt.Sscanf(b, "late%d", &secs)
+						vsched.Sleep(time.Duration(secs+10) * time.Second)
+					} else if strings.HasPrefix(b, "slow") && b != "slow" {
+						var secs int
+						fmt.Sscanf(b, "slow%d", &secs)
+						vsched.Sleep(time.Duration(secs+10) * time.Second)
+					} else if strings.HasPrefix(b, "stall") || b == "slow" {
 						// the block manager keeps running after a round: let a stalled download play out
 						vsched.Sleep(20 * time.Second)
 					}
@@ -597,6 +614,14 @@ func c05Scenarios(thorough bool) []*scenario {
 	// two sources for one block: the first stalls mid-download, the second (asked after the block
 	// request delay) finishes first; the stalled one must not get the block processed a second time
 	add(syncConfig{length: 2, start: 1, concurrent: 2, script: map[string][]string{"a1": {"stall"}}}, 0)
+	// a source that accepts the request, stays silent past the two-minute start timeout and starts
+	// to deliver after 150 s - unless it was told to cancel when the download was given up, which is
+	// when another source is asked and serves the block
+	add(syncConfig{length: 2, start: 1, script: map[string][]string{"a1": {"late150"}}}, 0)
+	add(syncConfig{length: 2, start: 1, concurrent: 2, script: map[string][]string{"a1": {"late150", "late150"}}}, 0)
+	// a download that started and then stalls for more than the one-hour download timeout: it is
+	// given up, another source serves the block, and the stalled stream ends 4000 s after it began
+	add(syncConfig{length: 2, start: 1, script: map[string][]string{"a1": {"slow4000"}}}, 0)
 	// five sources for one block (asked 5 s apart): four never answer, the fifth delivers. When the
 	// block completes the other four are cancelled one after the other, each ending - and leaving the
 	// manager's list - while the next is being cancelled; every one of them must be told to cancel
